@@ -1,6 +1,6 @@
 (* C13 (xfab.tools).  ubi_to_u_and_eps in tools omits the 2 pi of tools' own UBI convention (known finding F7): the property's
-   statement "gives back U and strain" is false for tools; C13_tools_ubi_eps_actual says what is returned instead and
-   C13_tools_ubi_eps_refuted that it never is the strain put in.  The search harness replays the finding on the implementation. *)
+   statement "gives back U and strain" is false for tools.  What is returned instead is stated in props/C13_findings.v (obligations
+   only while the finding is open); the search harness replays the finding on the implementation. *)
 From Coq Require Import Reals.
 From XV Require Import RealLib Mat3 Cell Gen_tools P13_laue P13_tools P13_ubi P13_tools_old.
 Open Scope R_scope.
@@ -24,11 +24,3 @@ Print Assumptions C13_tools_old_roundtrip.
 Theorem C13_tools_old_zero_strain : forall c, valid_cell c -> tools_epsilon_to_b_old (mkV6 0 0 0 0 0 0) c = tools_form_b_mat c.
 Proof. exact tools_zero_strain_old. Qed.
 Print Assumptions C13_tools_old_zero_strain.
-
-Theorem C13_tools_ubi_eps_actual : forall U eps c, is_rot U -> valid_cell c -> strain_small eps ->
-  tools_ubi_to_u_and_eps (mscale (2 * PI) (minv (mmul U (tools_epsilon_to_b eps c)))) c = (U, eps_scaled (2 * PI) eps).
-Proof. exact tools_ubi_u_eps_actual. Qed.
-Print Assumptions C13_tools_ubi_eps_actual.
-Theorem C13_tools_ubi_eps_refuted : forall eps, strain_small eps -> eps_scaled (2 * PI) eps <> eps.
-Proof. exact eps_scaled_differs. Qed.
-Print Assumptions C13_tools_ubi_eps_refuted.
